@@ -4,6 +4,8 @@
 package zenodb
 
 import (
+	"time"
+
 	"github.com/getlantern/wal"
 	"github.com/getlantern/zenodb/common"
 )
@@ -24,3 +26,4 @@ func verifJoined(db *DB, stream string, id common.FollowerID)               {}
 func verifSubmitted(db *DB, id common.FollowerID, offset wal.Offset)        {}
 func verifDispatched(db *DB, stream string, data []byte, offset wal.Offset) {}
 func verifPoint(name string)                                                {}
+func verifRemoveEvery(rs *rowStore) chan time.Duration                      { return nil }
